@@ -353,14 +353,58 @@ func (fc *FnCtx) safeAssert(st *State, kind string, cond Term, pos token.Pos, te
 func (fc *FnCtx) mapKeys(m *types.Map) (dom, val, ln heapKey, ks, vs string) {
 	ks, vs = sortOf(m.Key()), sortOf(m.Elem())
 	id := smtIdent(types.TypeString(m, func(p *types.Package) string { return p.Name() }))
-	return heapKey{"M", "dom_" + id}, heapKey{"M", "val_" + id}, heapKey{"M", "len_" + id}, ks, vs
+	val = heapKey{"M", "val_" + id}
+	if isStructVal(m.Elem()) {
+		if fc.structMaps == nil {
+			fc.structMaps = map[heapKey]string{}
+		}
+		fc.structMaps[val] = ks
+	}
+	return heapKey{"M", "dom_" + id}, val, heapKey{"M", "len_" + id}, ks, vs
+}
+
+// structValsAllocated: a struct value held in a map is represented by a reference to a hidden object; every such
+// reference denotes storage that exists (it is at or below the allocation mark), so an object allocated later is
+// none of them. Stated once per version of the value array that is not defined from an earlier version.
+func (fc *FnCtx) structValsAllocated(st *State) {
+	if len(fc.structMaps) == 0 {
+		return
+	}
+	var cur Term
+	for _, k := range fc.stateKeys(st) {
+		hk, ok := k.(heapKey)
+		if !ok {
+			continue
+		}
+		ks, ok := fc.structMaps[hk]
+		if !ok {
+			continue
+		}
+		v := st.vars[k]
+		if fc.structValDone == nil {
+			fc.structValDone = map[string]bool{}
+		}
+		if fc.structValDone[v.S] || strings.ContainsAny(v.S, "( ") {
+			continue
+		}
+		fc.structValDone[v.S] = true
+		if cur.S == "" {
+			cur = fc.get(st, allocKey, SInt, nil)
+		}
+		fc.assume(st, boolT(fmt.Sprintf("(forall ((qm Int) (qk %s)) (! (<= (select (select %s qm) qk) %s) :pattern ((select (select %s qm) qk))))", ks, v.S, cur.S, v.S)))
+	}
 }
 
 func (fc *FnCtx) mapRead(st *State, m Term, mt *types.Map, k Term) (val Term, ok Term) {
 	dk, vk, _, ks, vs := fc.mapKeys(mt)
 	dom := fc.get(st, dk, arraySort(SInt, arraySort(ks, SBool)), nil)
 	va := fc.get(st, vk, arraySort(SInt, arraySort(ks, vs)), nil)
-	ok = boolT(fmt.Sprintf("(select (select %s %s) %s)", dom.S, m.S, k.S))
+	// a nil map holds nothing
+	if m.S == "0" {
+		ok = tFalse
+	} else {
+		ok = boolT(fmt.Sprintf("(and (not (= %s 0)) (select (select %s %s) %s))", m.S, dom.S, m.S, k.S))
+	}
 	val = Term{S: fmt.Sprintf("(select (select %s %s) %s)", va.S, m.S, k.S), Sort: vs, T: mt.Elem()}
 	return
 }
@@ -368,7 +412,10 @@ func (fc *FnCtx) mapRead(st *State, m Term, mt *types.Map, k Term) (val Term, ok
 func (fc *FnCtx) mapLen(st *State, m Term, mt *types.Map) Term {
 	_, _, lk, _, _ := fc.mapKeys(mt)
 	la := fc.get(st, lk, arraySort(SInt, SInt), nil)
-	return intT(fmt.Sprintf("(select %s %s)", la.S, m.S))
+	if m.S == "0" {
+		return intT("0")
+	}
+	return intT(fmt.Sprintf("(ite (= %s 0) 0 (select %s %s))", m.S, la.S, m.S))
 }
 
 func (fc *FnCtx) mapWrite(st *State, m Term, mt *types.Map, k, v Term) {
@@ -608,6 +655,9 @@ func (fc *FnCtx) ident(st *State, e *ast.Ident) Term {
 			return t
 		}
 	case *types.Var:
+		if fc.eng.guardOf[o] != nil {
+			fc.guardAccess(st, o, false, e.Pos())
+		}
 		v := fc.lookupVar(st, o)
 		v.T = o.Type()
 		return v
